@@ -85,3 +85,17 @@ add("C03", "exploration",
     "tolerance for non-integers (16 significant digits are printed).",
     "property-based metamorphic testing (Hypothesis + enumerated operator grid): folded vs un-folded twin on the IC10 reference machine",
     "DESIGN.md section 3")
+add("C13", "exploration",
+    "Generated programs split over main + 1-3 library modules (aliases, colliding names, __main__ blocks, never-called "
+    "functions) are rendered as modules and as one merged file; both are compiled, run on the reference machine and "
+    "compared, plus comparison with the source interpreter and metamorphic deletion of __main__ blocks / unused functions.",
+    "Generated label numbers are canonicalised before textual comparison; imports at the top of the main file.",
+    "property-based metamorphic + differential testing (Hypothesis): modular vs merged rendering",
+    "DESIGN.md section 13")
+add("C15", "exploration",
+    "Generated directive lines (spellings, placements, unknown names, decoys, repeated options) x caller vectors; a "
+    "reference parser written from the property text gives the expected option values and the result must equal the "
+    "API-given compilation of the neutralised source; the subset family (256) is enumerated.",
+    "Directive lines are comment lines of the main file; case-sensitive keyword.",
+    "property-based testing (Hypothesis) against a reference parser + result equivalence",
+    "DESIGN.md section 15")
